@@ -76,6 +76,47 @@ def gen_pluto(seed, shard, n):
                "u": F3(U(float(ra), float(dec))), "jb": fx(jb), "ja": fx(ja)}
 
 
+def _two_body(q, e, dt):
+    """position in the orbit frame (xp towards perihelion) dt days after perihelion, with the solution of Kepler's /
+    Barker's equation as a witness; None when the residual cannot be brought below 1e-13"""
+    if e == 1.0:
+        W = 0.03649116245 * dt / (q * math.sqrt(q))
+        s = W / 3.0
+        for _ in range(200):
+            s2 = (2.0 * s ** 3 + W) / (3.0 * (s * s + 1.0))
+            if s2 == s:
+                break
+            s = s2
+        if abs(s ** 3 + 3.0 * s - W) > 1e-13 * (1.0 + abs(W)):
+            return None
+        return {"s": s, "xp": q * (1.0 - s * s), "yp": 2.0 * q * s}
+    a = q / (1.0 - e)
+    b = a * math.sqrt(1.0 - e * e)
+    Mraw = 0.9856076686 / (a * math.sqrt(a)) * dt              # degrees
+    M = math.radians(math.fmod(Mraw, 360.0))
+    if M > math.pi:
+        M -= 2.0 * math.pi
+    if M < -math.pi:
+        M += 2.0 * math.pi
+    lo, hi = -math.pi, math.pi                                  # E - e sin E is increasing: bisection, then Newton polish
+    f = lambda x: x - e * math.sin(x) - M
+    for _ in range(200):
+        mid = 0.5 * (lo + hi)
+        if f(mid) > 0:
+            hi = mid
+        else:
+            lo = mid
+    E = 0.5 * (lo + hi)
+    for _ in range(3):
+        d = 1.0 - e * math.cos(E)
+        if d > 1e-12:
+            E -= f(E) / d
+    if abs(f(E)) > 1e-13:
+        return None
+    return {"a": a, "b": b, "E": math.degrees(E), "sE": math.sin(E), "cE": math.cos(E), "Mraw": Mraw,
+            "xp": a * (math.cos(E) - e), "yp": b * math.sin(E)}
+
+
 def gen_minor(seed, shard, n):
     from pymeeus.Epoch import Epoch
     from pymeeus.Angle import Angle
@@ -107,41 +148,36 @@ def gen_minor(seed, shard, n):
             yield {"k": "min", "site": "min", "oc": type(ex).__name__ + ":" + str(ex)[:40], "el": [q, e, inc, node, argp, T, t], "ef": e, "qf": q}
             continue
         S = list(Sun.rectangular_coordinates_j2000(Epoch(t)))
+        RS = math.sqrt(sum(v * v for v in S))
         u = U(float(ra), float(dec))
         i_, o_, w_ = math.radians(inc), math.radians(node), math.radians(argp)
         # orbit frame in the ecliptic J2000, then rotated to the equator J2000
-        nrm = to_eq([math.sin(i_) * math.sin(o_), -math.sin(i_) * math.cos(o_), math.cos(i_)])
         per = to_eq([math.cos(o_) * math.cos(w_) - math.sin(o_) * math.sin(w_) * math.cos(i_),
                      math.sin(o_) * math.cos(w_) + math.cos(o_) * math.sin(w_) * math.cos(i_), math.sin(w_) * math.sin(i_)])
         qer = to_eq([-math.cos(o_) * math.sin(w_) - math.sin(o_) * math.cos(w_) * math.cos(i_),
                      -math.sin(o_) * math.sin(w_) + math.cos(o_) * math.cos(w_) * math.cos(i_), math.cos(w_) * math.sin(i_)])
-        nu = sum(a * b for a, b in zip(nrm, u))
-        ns = sum(a * b for a, b in zip(nrm, S))
-        if abs(nu) < 1e-3:
-            continue                 # line of sight nearly in the orbital plane: the plane equation cannot fix the distance
-        delta = ns / nu
-        if delta <= 0:
-            cnt += 1
-            yield {"k": "min", "site": "min", "oc": "behind", "el": [q, e, inc, node, argp, T, t], "ef": e, "qf": q}
-            continue
-        H = [delta * u[k] - S[k] for k in range(3)]
-        r = math.sqrt(sum(v * v for v in H))
-        tau = K_LT * delta
+        # the harness's own two-body solution at t - tau - T (tau iterated); TLC verifies it before using it
+        tau, sol = 0.0, None
+        for _ in range(8):
+            sol = _two_body(q, e, t - tau - T)
+            if sol is None:
+                break
+            H = [sol["xp"] * per[k] + sol["yp"] * qer[k] for k in range(3)]
+            delta = math.sqrt(sum((H[k] + S[k]) ** 2 for k in range(3)))
+            tau = K_LT * delta
+        if sol is None:
+            continue                 # the harness could not solve the equation to 1e-13: no witness, no event
         dtp = t - tau - T
-        ev = {"k": "min", "site": "min", "oc": "ok", "el": [q, e, inc, node, argp, T, t], "ef": e, "qf": q, "S": F3(S), "u": F3(u), "nrm": F3(nrm),
-              "per": F3(per), "qer": F3(qer), "delta": fx(delta), "r": fx(r), "q": fx(q), "e": fx(e), "dtp": fx(dtp),
-              "jb": fx(jb), "ja": fx(ja), "conic": "parabola" if e == 1.0 else "ellipse",
-              "sq": fx(math.sqrt(q)), "a": fx(0), "b": fx(0), "sa": fx(0), "sE": fx(0), "cE": fx(1), "E": fx(0), "Mraw": fx(0)}
-        if e < 1.0:
-            a = q / (1.0 - e)
-            b = a * math.sqrt(1.0 - e * e)
-            xp = sum(x * y for x, y in zip(H, per))
-            yp = sum(x * y for x, y in zip(H, qer))
-            cE = (1.0 - r / a) / e if e > 0 else xp / a
-            sE = yp / b
-            E = math.degrees(math.atan2(sE, cE))
-            nmo = 0.9856076686 / (a * math.sqrt(a))
-            ev.update(a=fx(a), b=fx(b), sa=fx(math.sqrt(a)), sE=fx(math.sin(math.radians(E))), cE=fx(math.cos(math.radians(E))),
-                      E=fx(E), Mraw=fx(nmo * dtp))
+        sol = _two_body(q, e, dtp)
+        if sol is None:
+            continue
+        el = float(elong)
+        ev = {"k": "min", "site": "min", "oc": "ok", "el": [q, e, inc, node, argp, T, t], "ef": e, "qf": q, "S": F3(S), "RS": fx(RS),
+              "us": F3([v / RS for v in S]), "u": F3(u), "per": F3(per), "qer": F3(qer), "delta": fx(delta), "tau": fx(tau),
+              "q": fx(q), "e": fx(e), "dtp": fx(dtp), "jb": fx(jb), "ja": fx(ja), "conic": "parabola" if e == 1.0 else "ellipse",
+              "elong": fx(el), "cel": fx(math.cos(math.radians(el))), "sel": fx(math.sin(math.radians(el))),
+              "sq": fx(math.sqrt(q)), "s": fx(sol.get("s", 0.0)), "a": fx(sol.get("a", 0.0)), "b": fx(sol.get("b", 0.0)),
+              "sa": fx(math.sqrt(sol.get("a", 0.0))), "sE": fx(sol.get("sE", 0.0)), "cE": fx(sol.get("cE", 1.0)),
+              "E": fx(sol.get("E", 0.0)), "Mraw": fx(sol.get("Mraw", 0.0))}
         cnt += 1
         yield ev
